@@ -1,9 +1,12 @@
 SPECIFICATION SSpec
 CONSTANTS
-  Groups = {"wallet", "blockrelay", "messenger", "controller", "cache", "validators", "attester", "registrar", "bids", "restcfg", "exechead", "syncagg", "bestvotes", "bidstrategy", "dirk"}
+  Groups = {"wallet", "blockrelay", "messenger", "controller", "cache", "validators", "attester", "registrar", "bids", "restcfg", "exechead", "syncagg", "bestvotes", "bidstrategy", "dirk", "syncduty"}
   Pinned = FALSE
   InPlace = FALSE
   Reuse = FALSE
+  WideEnv = TRUE
+  Share = "period"
+  AliasWrite = "none"
   MaxPar = 3
 INVARIANTS Emit
 CHECK_DEADLOCK FALSE
